@@ -250,7 +250,7 @@ def special_form(I, n):
     if name == 'implies':
         a = I.bool_term(I.eval(n.args[0]))
         a = z3.BoolVal(a) if isinstance(a, bool) else a
-        if is_lit_false(I.rw(a)):
+        if is_lit_false(I.rw(a)) or I.entails(z3.Not(a), 800):
             return True
         b = I.bool_term(I.eval(n.args[1]))
         b = z3.BoolVal(b) if isinstance(b, bool) else b
